@@ -901,6 +901,7 @@ impl<'a> Gen<'a> {
                         self.hit("andor");
                         Expr::Bin(op, Box::new(a), Box::new(b))
                     }
+                    5 | 6 if self.tier() >= 1 => self.strcmp_expr(d),
                     3 | 4 => {
                         let t = if self.tier() >= 1 && self.rng.chance(1, 3) {
                             if self.rng.chance(1, 3) { Ty::Tuple(vec![Ty::Int, Ty::Str]) } else { Ty::Str }
@@ -1034,6 +1035,36 @@ impl<'a> Gen<'a> {
             }
             Ty::Fn(args, ret) => self.lambda(&args.clone(), &ret.clone(), d),
         }
+    }
+
+    /// a string operand for a comparison: one half of a designed pair, or any string expression
+    fn str_pair(&mut self, d: u32) -> (Expr, Expr) {
+        // equal, proper prefix either way, common prefix then smaller / greater byte, no common prefix, empty
+        const PAIRS: [(&str, &str); 10] = [
+            ("abc", "abc"), ("ab", "abc"), ("abc", "ab"), ("abc", "abd"), ("abd", "abc"), ("abcx", "abdy"),
+            ("x", "abc"), ("", "a"), ("a", ""), ("", ""),
+        ];
+        let (a, b) = *self.rng.pick(&PAIRS);
+        let lit = |s: &str| Expr::Str(s.to_string());
+        match self.rng.below(5) {
+            0 => {
+                let a2 = self.expr(&Ty::Str, d.saturating_sub(1));
+                self.depth += 1;
+                let b2 = self.expr(&Ty::Str, d.saturating_sub(1));
+                self.depth -= 1;
+                (a2, b2)
+            }
+            // operands built on the operand stack: concatenations of the halves
+            1 => (Expr::Bin(BinOp::Concat, Box::new(lit(a)), Box::new(lit(""))), Expr::Bin(BinOp::Concat, Box::new(lit("")), Box::new(lit(b)))),
+            _ => (lit(a), lit(b)),
+        }
+    }
+
+    fn strcmp_expr(&mut self, d: u32) -> Expr {
+        let op = *self.rng.pick(&[BinOp::Lt, BinOp::Le, BinOp::Gt, BinOp::Ge, BinOp::Ge, BinOp::Eq, BinOp::Ne]);
+        let (a, b) = self.str_pair(d);
+        self.hit("strcmp");
+        Expr::Bin(op, Box::new(a), Box::new(b))
     }
 
     fn printable_ty(&mut self) -> Ty {
@@ -1653,6 +1684,17 @@ impl<'a> Gen<'a> {
             let extra = self.expr(&Ty::Bool, 1);
             cond = Expr::Bin(BinOp::And, Box::new(cond), Box::new(extra));
         }
+        // a `break`/`continue` in the condition refers to the ENCLOSING loop (both the checker and the code generator
+        // enter the loop only after the condition): legal only when there is one
+        if self.o.nesting && self.loop_depth > 0 && self.rng.chance(1, 3) {
+            let c = self.expr(&Ty::Bool, 1);
+            let jump = if self.rng.chance(1, 2) { Stmt::Break } else { Stmt::Continue };
+            self.hit("jump_in_while_cond");
+            cond = Expr::Block(vec![
+                Stmt::Expr(Expr::If(Box::new(c), Box::new(Expr::Block(vec![jump])), Box::new(Expr::Block(vec![])))),
+                Stmt::Expr(cond),
+            ]);
+        }
         let saved = (self.loop_depth, self.depth);
         self.loop_depth += 1;
         self.depth = 0;
@@ -1683,6 +1725,14 @@ impl<'a> Gen<'a> {
             }
         } else {
             (Expr::Int(self.rng.below(4) as i64), Ty::Int)
+        };
+        let it = if self.o.nesting && self.loop_depth > 0 && self.rng.chance(1, 4) {
+            let c = self.expr(&Ty::Bool, 1);
+            let jump = if self.rng.chance(1, 2) { Stmt::Break } else { Stmt::Continue };
+            self.hit("jump_in_for_iterable");
+            Expr::Block(vec![Stmt::Expr(Expr::If(Box::new(c), Box::new(Expr::Block(vec![jump])), Box::new(Expr::Block(vec![])))), Stmt::Expr(it)])
+        } else {
+            it
         };
         let saved = (self.loop_depth, self.depth, self.in_for_arr);
         self.loop_depth += 1;
@@ -2288,6 +2338,11 @@ pub fn analysis_request(p: &Program) -> String {
     }
     let s = format!("analysis ( bodies {} )", bodies.join(" "));
     s.split_whitespace().collect::<Vec<_>>().join(" ")
+}
+
+/// `loopctx` request: does the checker model accept the program's use of break/continue (and captured assignment)?
+pub fn loopctx_request(p: &Program) -> String {
+    analysis_request(p).replacen("analysis", "loopctx", 1)
 }
 
 /// the same observable read off the real unoptimised assembly: for every `make_closure n` / `spawn_task n L`
